@@ -1,5 +1,6 @@
 import NeumannModel.Common.Proto
 import NeumannModel.Ckpt.Model
+import NeumannModel.Ckpt.Slab
 /-
   Line-protocol driver for the checkpoint / rollback model (C08).  Stateful: one `Db`.
 
@@ -14,6 +15,9 @@ import NeumannModel.Ckpt.Model
     snap | restore i                         (bare snapshot_bytes / restore_from_bytes, bytes kept outside)
     obs ints|- labels|- q1;q2;..|-           (the full canonical observable image)
     retain max ord|- ids|- tss|-             (pure: ids `RetentionManager::enforce` keeps)
+    sl reset | sl set e v | sl del e | sl clear | sl compact | sl reload
+                                             (the slot-level `EmbeddingSlab` model of Slab.lean; answer =
+                                              every (entity:vector) readable through `get`, by entity)
 -/
 open Neumann Neumann.Proto Neumann.Ckpt
 
@@ -117,18 +121,41 @@ def ckptStep1 (d : Db) (line : String) : Db × String :=
       | _, _, _, _ => bad
   | _ => bad
 
-/-- driver state: the database plus byte strings kept OUTSIDE it (`snap` / `restore i`:
-    bare `snapshot_bytes` / `restore_from_bytes`, no checkpoint manager) -/
-def ckptStep (ds : Db × List Store) (line : String) : (Db × List Store) × String :=
+def showSlab (s : Slab.Slab) : String :=
+  ",".intercalate ((Slab.entries s).map fun p => s!"{p.1}:{p.2}")
+
+def slabStep (s : Slab.Slab) (ws : List String) : Option Slab.Slab :=
+  match ws with
+  | ["reset"] => some {}
+  | ["set", e, v] => match e.toNat?, v.toInt? with
+      | some e, some v => some (Slab.set s e v) | _, _ => none
+  | ["del", e] => e.toNat?.map (Slab.delete s)
+  | ["clear"] => some (Slab.clear s)
+  | ["compact"] => some (Slab.compact s)
+  | ["reload"] => some (Slab.reload s)
+  | _ => none
+
+structure DState where
+  db : Db := {}
+  snaps : List Store := []     -- byte strings kept OUTSIDE the database (`snap` / `restore i`)
+  slab : Slab.Slab := {}
+
+/-- driver state: the database, byte strings kept OUTSIDE it (`snap` / `restore i`:
+    bare `snapshot_bytes` / `restore_from_bytes`, no checkpoint manager), and a bare embedding slab -/
+def ckptStep (ds : DState) (line : String) : DState × String :=
   match words line with
-  | ["reset"] => (({}, []), "ok")
-  | ["snap"] => ((ds.1, ds.2 ++ [ds.1.st.snapshot]), s!"id {ds.2.length}")
+  | ["reset"] => ({ ds with db := {}, snaps := [] }, "ok")
+  | ["snap"] => ({ ds with snaps := ds.snaps ++ [ds.db.st.snapshot] }, s!"id {ds.snaps.length}")
   | ["restore", i] =>
     match i.toNat? with
-    | some i => match ds.2[i]? with
-      | some img => (({ ds.1 with st := Store.restoreFrom img ds.1.st }, ds.2), "ok")
+    | some i => match ds.snaps[i]? with
+      | some img => ({ ds with db := { ds.db with st := Store.restoreFrom img ds.db.st } }, "ok")
       | none => (ds, "err notfound")
     | none => (ds, "bad-op")
-  | _ => let r := ckptStep1 ds.1 line; ((r.1, ds.2), r.2)
+  | "sl" :: ws =>
+    match slabStep ds.slab ws with
+    | some s => ({ ds with slab := s }, showSlab s)
+    | none => (ds, "bad-op")
+  | _ => let r := ckptStep1 ds.db line; ({ ds with db := r.1 }, r.2)
 
-def main : IO Unit := run ckptStep ({}, [])
+def main : IO Unit := run ckptStep {}
